@@ -14,7 +14,8 @@ RULE = ("the real b3sum binary (b3sum/src/main.rs compiled unmodified, harness/b
         "file sizes from {0,1,1023,1024,1025,16383,16384,16385,65537}, names from the C13 alphabet (spaces, double "
         "spaces, ') = ', 'BLAKE3 (', backslash, CR, LF, TAB, 2/3/4-byte scalars, U+FFFD, invalid UTF-8); flag "
         "combinations of --keyed (key on stdin, lengths 0/31/32/33), --derive-key, --length, --seek, --no-mmap, "
-        "--num-threads 1/3, --raw, --no-names, --tag; missing inputs; --check over checkfiles made by the binary itself "
+        "--num-threads 1/3, --raw, --no-names, --tag; --raw outputs of 1.2 to 14 KiB whose last 0x0a byte lies more than "
+        "1024 bytes before the end (short-write layout of a line-buffered stdout); missing inputs; --check over checkfiles made by the binary itself "
         "and then mixed with stale (file rewritten), missing, directory, malformed, empty and non-UTF-8 lines, LF / CRLF / "
         "no final terminator, several checkfiles, a missing checkfile, --quiet, --seek. stdout, exit status and the "
         "files_failed count of the WARNING line are compared with Model/B3sum.v, whose digest bytes come from the "
@@ -68,9 +69,43 @@ def pick_names(rng, k):
     return names
 
 
-def gen_cases(seed, tier, cfg):
+def long_raw_cases(ctx, tier):
+    """--raw output longer than stdout's 1024-byte line buffer whose LAST newline byte lies more than 1024 bytes before
+    the end (the one layout in which a single `write` to Rust's line-buffered stdout returns a short count): the
+    lengths are chosen by looking at the library's output stream (input selection only; the expected bytes come from
+    the model).  Plus the same streams in hex."""
+    b = ctx.need_harness("default", "debug")
+    if b is None:
+        return []
+    want = 14000
+    probes, metas = [], []
+    for i in range(24 if tier == "thorough" else 10):
+        spec = "paint/%d/%d" % (7 * i + 1, [100, 0, 1025, 3000, 70000][i % 5])
+        probes.append("p%d H hash detect u:0:%s x:0:%d" % (i, spec, want))
+        metas.append(spec)
+    res = verif.run_lines(b, probes)
+    out, found = [], 0
+    for i, spec in enumerate(metas):
+        r = res.get("p%d" % i, "")
+        if not r.startswith("x"):
+            continue
+        stream = bytes.fromhex(r.split()[0][1:])
+        nl = [k for k, c in enumerate(stream) if c == 10]
+        gaps = [(a, b2) for a, b2 in zip(nl, nl[1:] + [len(stream)]) if b2 - a > 1200]
+        for a, b2 in gaps[:2]:
+            length = a + 1 + 1100 + (found % 3) * 30           # last newline at a, 1100.. bytes after it
+            out.append("b3hash hash - len=%d,raw%s %s:%s" % (length, ",nommap" if found % 2 else "", hx(b"lr%d" % found), spec))
+            found += 1
+        if i < 2:
+            out.append("b3hash hash - len=%d,raw %s:%s" % (5000 + 37 * i, hx(b"lq%d" % i), spec))
+            out.append("b3hash hash - len=%d %s:%s" % (3000 + i, hx(b"lh%d" % i), spec))
+    ctx.log("long --raw outputs: %d cases with the last newline more than 1024 bytes before the end" % found)
+    return out
+
+
+def gen_cases(seed, tier, cfg, extra=()):
     rng = Rng(seed)
-    out = []
+    out = list(extra)
     n1 = 500 if tier == "thorough" else 90
     # --- hashing mode ---------------------------------------------------------------------------
     for k in range(n1):
@@ -279,7 +314,8 @@ def correspondence(ctx):
         cfg = C13.probe_cfg(C13.probe_bin(b))
         ctx.log("code under test matches model configuration tagged_first=%s hex_unwrap_is_error=%s" % (cfg[0], cfg[1]))
         ctx.extra_cov = {"probed_configuration": {"tagged_first": cfg[0] == "1", "hex_unwrap_is_error": cfg[1] == "1"}}
-        ctx.correspond("binary(cfg=%s)" % cfg, gen_cases(ctx.seed, ctx.tier, cfg), drv, b, profile=profile, build=flavour,
+        ctx.correspond("binary(cfg=%s)" % cfg, gen_cases(ctx.seed, ctx.tier, cfg, long_raw_cases(ctx, ctx.tier)), drv, b,
+                       profile=profile, build=flavour,
                        nontrivial=nontrivial, impl_runner=run_b3sum)
         if cfg != "11":
             # the configuration C12_check_all_lines_processed is proved for
